@@ -282,8 +282,54 @@ func main() {
 	}
 	if o.Replay == "" {
 		stored(rep, w)
+		quotaOrder(rep, w)
 	}
 	rep.Finish()
+}
+
+// quotaOrder: with quota checking on and one recipient over its quota, the replies after the terminating dot still come one
+// per recipient in RCPT order: the over-quota recipient's position carries the refusal, every other position a 2xx.
+func quotaOrder(rep *hx.Report, w *world.World) {
+	c := w.Login("full16@example.com")
+	for i := 0; i < 3; i++ {
+		c.Append("INBOX", "", "From: a@b\r\nTo: full16@example.com\r\nSubject: ballast\r\n\r\n"+strings.Repeat("ballast ballast ballast ballast ballast ballast ballast ballast\r\n", 400))
+	}
+	c.Close()
+	cfg := config.DefaultConfig()
+	cfg.LMTP.Timeout = 2
+	cfg.LMTP.MaxRecipients = 10
+	cfg.Delivery.QuotaEnabled = true
+	cfg.Delivery.QuotaLimit = 60000
+	n := 0
+	for _, order := range [][]bool{{false, true, false}, {true, false}, {false, false, true}, {true, true, false}, {false, true, true, false}, {true}} {
+		var sb strings.Builder
+		sb.WriteString("LHLO c\r\nMAIL FROM:<s@example.org>\r\n")
+		for _, full := range order {
+			if full {
+				sb.WriteString("RCPT TO:<full16@example.com>\r\n")
+			} else {
+				n++
+				sb.WriteString(fmt.Sprintf("RCPT TO:<q16new%d@example.com>\r\n", n))
+			}
+		}
+		sb.WriteString("DATA\r\nFrom: s@example.org\r\nTo: r@example.com\r\nSubject: quota order\r\n\r\nbody\r\n.\r\nQUIT\r\n")
+		out := w.LMTPCfg(cfg, sb.String())
+		cs := strings.Fields(codes(out))
+		// greeting, 5 LHLO lines, MAIL, one per RCPT, 354, one per recipient, 221
+		at := 1 + 5 + 1 + len(order) + 1
+		replay := []string{"quota-order " + fmt.Sprint(order)}
+		if len(cs) != at+len(order)+1 {
+			rep.Violate("impl-violation", "one reply per recipient in RCPT order (Props.C16.one_reply_per_recipient)", fmt.Sprintf("recipients (over quota: %v): %d reply codes instead of %d: %v", order, len(cs), at+len(order)+1, cs), replay)
+			return
+		}
+		for i, full := range order {
+			if ok := strings.HasPrefix(cs[at+i], "2"); ok == full {
+				rep.Violate("impl-violation", "one reply per recipient in RCPT order (Props.C16.one_reply_per_recipient)", fmt.Sprintf("recipients (over quota: %v): replies after the dot are %v: position %d does not belong to its recipient", order, cs[at:at+len(order)], i+1), replay)
+				return
+			}
+		}
+		rep.Hit("quota-order")
+	}
 }
 
 // stored: what was submitted (before dot-stuffing) is what IMAP returns as the body, for bodies made of dot lines,
